@@ -6,7 +6,10 @@ package message
 
 func VerifParseSearchTokens(c string) []string        { return parseSearchTokens(c) }
 func VerifIsSequenceSet(t string) bool                { return isSequenceSet(t) }
-func VerifMatchesSequenceSet(n int, s string) bool    { return matchesSequenceSet(n, s) }
+// matchesSequenceSet takes the largest number in use ("*") since the SEARCH sequence-set fix
+func VerifMatchesSequenceSet(n int, s string, largest int) bool {
+	return matchesSequenceSet(n, s, largest)
+}
 func VerifExtractSinglePart(m string, n int) string   { return extractSinglePart(m, n) }
 func VerifExtractBodySectionByPath(m string, p []int) string {
 	return extractBodySectionByPath(m, p)
@@ -24,4 +27,10 @@ func VerifHasHeader(raw, field string) bool { return hasHeader(raw, field) }
 // are not exercised through this entry point).
 func VerifEvalTokens(seq int, uid int64, flags string, tokens []string) bool {
 	return evaluateTokens(messageInfo{seqNum: seq, uid: uid, flags: flags}, tokens, "US-ASCII", 0, nil)
+}
+
+// VerifEvalTokensIn is VerifEvalTokens for a message of a mailbox whose highest
+// sequence number / UID ("*" in sequence sets / UID sets) are given.
+func VerifEvalTokensIn(seq int, uid int64, maxSeq int, maxUID int64, flags string, tokens []string) bool {
+	return evaluateTokens(messageInfo{seqNum: seq, uid: uid, maxSeqNum: maxSeq, maxUID: maxUID, flags: flags}, tokens, "US-ASCII", 0, nil)
 }
